@@ -186,7 +186,7 @@ Loop(par, st, inst, idxs) ==
   LET RECURSIVE Go(_, _, _)
       Go(s, j, acc) ==
         IF j > Len(idxs) THEN [st |-> s, vs |-> acc, exc |-> "none"]
-        ELSE LET r == GetInt(par, s, inst, idxs[j])
+        ELSE LET r == GetInt(par, s, inst, idxs[j])      \* (r.ok forces the step)
              IN IF r.ok THEN Go(r.st, j + 1, Append(acc, r.v))
                 ELSE [st |-> r.st, vs |-> <<>>, exc |-> r.exc]
   IN Go(st, 1, <<>>)
@@ -247,7 +247,10 @@ ModelRun(par, hist) ==
   LET RECURSIVE Go(_, _, _)
       Go(s, j, acc) == IF j > Len(hist) THEN acc
                        ELSE LET r == ApplyStep(par, s, hist[j])
-                            IN Go(r.st, j + 1, Append(acc, r.o))
+                            \* TLC passes operator arguments lazily: force every
+                            \* step, or a long history is one deeply nested thunk
+                            IN IF r.o.exc = "" THEN acc
+                               ELSE Go(r.st, j + 1, Append(acc, r.o))
       s0 == InitState(par)
   IN [init |-> s0.calls, steps |-> Go(s0, 1, <<>>)]
 
